@@ -6,6 +6,7 @@
   destruction, never destroyed while visible — is an invariant of histories.
 -/
 import AnyVecModel.Proofs.Own
+import AnyVecModel.Props.Hist
 namespace AnyVec
 namespace C03
 open World
@@ -115,6 +116,21 @@ def sampleWorld : World := { vecs := [sampleVec, { sampleVec with cells := [.val
 example : sampleWorld.owned.Nodup := by decide
 example : (step { size := 8, align := 8, hasDrop := true } (.remove 0 1 .drop) sampleWorld).1.owned
     = [.val 10, .val 12, .val 3, .val 5, .val 11, .val 7, .val 1] := by decide
+
+/-! ### over whole histories (core operation set, arbitrary fault injection in every step) -/
+
+/-- **history theorem**: in every world reachable by core script steps — each run with an arbitrary
+injected panic — the visible elements of all vectors, the values the caller holds and the destroyed
+values are pairwise distinct identities: exactly one owner, at most one destruction, never destroyed
+while still reachable. (`drain`/`splice`/`clone`/cross-vector moves: single-step theorems only.) -/
+theorem history_single_owner_core (cfg : Cfg) (w : World) (hr : Hist.Reach cfg w) :
+    w.owned.Nodup ∧ ∀ id, Cell.val id ∈ w.owned → id < w.created :=
+  Hist.reach_single_owner_core cfg w hr
+
+/-- … and every vector of a reachable world is well formed and shows only live elements -/
+theorem history_vectors_good_core (cfg : Cfg) (w : World) (hr : Hist.Reach cfg w) (v : Nat) (d : VecSt)
+    (hv : w.vecs[v]? = some d) : d.WF ∧ d.Init :=
+  ⟨((Hist.reach_inv_core cfg w hr).good v d hv).wf, ((Hist.reach_inv_core cfg w hr).good v d hv).init⟩
 
 end C03
 end AnyVec
